@@ -1,0 +1,123 @@
+// Copyright 2026 The osvbng Authors
+// Licensed under the GNU General Public License v3.0 or later.
+// SPDX-License-Identifier: GPL-3.0-or-later
+
+package config
+
+import (
+	"fmt"
+	"net/netip"
+	"sort"
+)
+
+// validateSubscriberPoolOverlap rejects two subscriber address pools of one
+// family that share addresses inside one VRF - also when they belong to
+// different profiles. Every pool is allocated from independently (its own
+// lease map in the allocator registry), so a shared address would be handed
+// to one subscriber by each pool: two live subscribers of the routing domain
+// with the same address or overlapping delegated prefixes. The same range in
+// two different VRFs is fine.
+func (c *Config) validateSubscriberPoolOverlap() error {
+	type span struct {
+		where    string
+		from, to netip.Addr
+	}
+	check := func(kind string, byVRF map[string][]span) error {
+		vrfs := make([]string, 0, len(byVRF))
+		for v := range byVRF {
+			vrfs = append(vrfs, v)
+		}
+		sort.Strings(vrfs)
+		for _, v := range vrfs {
+			spans := byVRF[v]
+			sort.Slice(spans, func(i, j int) bool { return spans[i].where < spans[j].where })
+			for i := range spans {
+				for j := i + 1; j < len(spans); j++ {
+					a, b := spans[i], spans[j]
+					if a.from.Compare(b.to) <= 0 && b.from.Compare(a.to) <= 0 {
+						vrf := v
+						if vrf == "" {
+							vrf = "default"
+						}
+						return fmt.Errorf("%s pools %s and %s overlap in vrf %s (%s-%s and %s-%s): an address may belong to one pool of a vrf only",
+							kind, a.where, b.where, vrf, a.from, a.to, b.from, b.to)
+					}
+				}
+			}
+		}
+		return nil
+	}
+	// the range a pool hands out, as the allocator registry derives it
+	poolRange := func(network, start, end string) (netip.Addr, netip.Addr, bool) {
+		prefix, err := netip.ParsePrefix(network)
+		if err != nil {
+			return netip.Addr{}, netip.Addr{}, false
+		}
+		prefix = prefix.Masked()
+		from, to := prefix.Addr().Next(), lastAddr(prefix).Prev()
+		if start != "" {
+			if from, err = netip.ParseAddr(start); err != nil {
+				return netip.Addr{}, netip.Addr{}, false
+			}
+		}
+		if end != "" {
+			if to, err = netip.ParseAddr(end); err != nil {
+				return netip.Addr{}, netip.Addr{}, false
+			}
+		}
+		from, to = from.Unmap(), to.Unmap()
+		if !from.IsValid() || !to.IsValid() || from.BitLen() != to.BitLen() || from.Compare(to) > 0 {
+			return netip.Addr{}, netip.Addr{}, false
+		}
+		return from, to, true
+	}
+
+	v4 := map[string][]span{}
+	for profileName, profile := range c.IPv4Profiles {
+		if profile == nil {
+			continue
+		}
+		for _, pool := range profile.Pools {
+			if from, to, ok := poolRange(pool.Network, pool.RangeStart, pool.RangeEnd); ok {
+				v4[pool.VRF] = append(v4[pool.VRF], span{"ipv4-profiles." + profileName + "." + pool.Name, from, to})
+			}
+		}
+	}
+	if err := check("ipv4", v4); err != nil {
+		return err
+	}
+
+	iana, pd := map[string][]span{}, map[string][]span{}
+	for profileName, profile := range c.IPv6Profiles {
+		if profile == nil {
+			continue
+		}
+		for _, pool := range profile.IANAPools {
+			if from, to, ok := poolRange(pool.Network, pool.RangeStart, pool.RangeEnd); ok {
+				iana[pool.VRF] = append(iana[pool.VRF], span{"ipv6-profiles." + profileName + ".iana-pools." + pool.Name, from, to})
+			}
+		}
+		for _, pool := range profile.PDPools {
+			prefix, err := netip.ParsePrefix(pool.Network)
+			if err != nil || !prefix.Addr().Is6() {
+				continue
+			}
+			prefix = prefix.Masked()
+			pd[pool.VRF] = append(pd[pool.VRF], span{"ipv6-profiles." + profileName + ".pd-pools." + pool.Name, prefix.Addr(), lastAddr(prefix)})
+		}
+	}
+	if err := check("iana", iana); err != nil {
+		return err
+	}
+	return check("pd", pd)
+}
+
+// lastAddr is the highest address of a (masked) prefix.
+func lastAddr(p netip.Prefix) netip.Addr {
+	b := p.Addr().AsSlice()
+	for bit := p.Bits(); bit < len(b)*8; bit++ {
+		b[bit/8] |= 1 << (7 - uint(bit%8))
+	}
+	a, _ := netip.AddrFromSlice(b)
+	return a
+}
